@@ -8,7 +8,7 @@
    (C04_read_is_last_written), also as shown by the walk (C04_walk_shows_last_written).  DESIGN.md section 8. *)
 From Coq Require Import List NArith ZArith Bool.
 Import ListNotations.
-From STFS Require Import Str Db Tape Index Ops Fs Diff File TapeLemmas Append C04Inv C01Str C01Sim T02Ns T02Spec T04Def T04Content T04View.
+From STFS Require Import Str Db Tape Index Ops Fs Diff File TapeLemmas Append C04Inv C01Str C01Sim T02Ns T02Spec T04Def T04Content T04View T02wNs T02wSpec T02wHist.
 Open Scope N_scope.
 
 (* (record, block) computed by the indexer from a block offset: block < record size, and the
@@ -81,7 +81,26 @@ Theorem C04_read_after_create : forall (hr : bool) (c : cfg), plain c -> 0 < c_r
   (o = OOk -> content_eq (content_of c s' n) (Some d) /\ ((d <> [] \/ content_of c s n = None) -> content_of c s' n = Some d)).
 Proof. exact T04_create. Qed.
 
+(* OpenFile with any flags + Write + Close: the content read back is the reference's overlay (truncate / append / overwrite
+   from the start), nobody else's content changes; and over histories that contain such calls *)
+Theorem C04_read_after_write_file : forall (hr : bool) (c : cfg), plain c -> 0 < c_rs c -> c_readonly c = false ->
+  forall s e n o perm d force, Good4 hr c s -> hb_env e -> good n -> write_bound (abs s) n d ->
+  let '(s', _) := step c (with_env s e) (CWriteFile n o perm d force) in
+  Good4 hr c s' /\
+  (forall m, good m -> m <> n -> content_of c s' m = content_of c s m) /\
+  content_eq (content_of c s' n) (spec_content (abs s) n o d force (content_of c s n)).
+Proof. exact T04_write_file. Qed.
+Theorem C04_read_is_last_written_with_writes : forall (c : cfg) (e0 : env) (r : list (call * env)),
+  plain c -> 0 < c_rs c -> c_readonly c = false -> hb_env e0 ->
+  let s0 := fst (step c (with_env init_sys e0) (CInitialize [slash])) in
+  ok_run4w true c s0 r ->
+  Good4 true c (final c s0 r) /\
+  (forall m, good m -> content_eq (content_of c (final c s0 r) m) (last_written_w c s0 r w_empty m)).
+Proof. exact T04w_reachable. Qed.
+
 Print Assumptions C04_positions_stable.
+Print Assumptions C04_read_after_write_file.
+Print Assumptions C04_read_is_last_written_with_writes.
 Print Assumptions C04_positions_designate_content.
 Print Assumptions C04_read_is_last_written.
 Print Assumptions C04_walk_shows_last_written.
